@@ -60,3 +60,16 @@ MANIFEST_ENTRY = dict(
     text='11 units: the 3-block diagonal product, its horizontal sum, the 4x12 block product and the 12x12 matrix-vector product, aligned/unaligned/8-bit variants, each proved against an exact expression DAG for all states and coefficient arrays.',
     note='Trusted: bridge from the L1 witness-form contracts to the uninterpreted-product form, intrinsic table, CBMC/cadical; the DAG = sum-of-products identity is a Lean lemma.')
 NATIVE_SOURCES = ['props/C13/wrappers.cpp']
+
+LEMMAS = ['sumtree3', 'sumtree4', 'dot8_term']
+def extra_checks(rn, tier, ginfos):
+    from vf import lean
+    import os, json
+    r = lean.check_lemmas(LEMMAS)
+    if r.get('lean_failed'):
+        path = os.path.join(os.environ.get('VF_REPLAY_DIR', os.path.join(os.path.dirname(os.path.dirname(os.path.dirname(os.path.abspath(__file__)))), 'replay', 'out')), PROPERTY)
+        os.makedirs(path, exist_ok=True)
+        f = os.path.join(path, 'lean-lemmas.json')
+        json.dump(dict(property=PROPERTY, obligation='Lean lemmas ' + ', '.join(LEMMAS), verifier_output=r.get('lean_output', '')), open(f, 'w'), indent=1)
+        r['violations'] = ['VIOLATION property=%s replay=%s [Lean lemma no longer accepted] no-failing-input-found' % (PROPERTY, f)]
+    return r
